@@ -81,6 +81,64 @@ def mk(spec, label='op'):
     raise ValueError(k)
 
 
+def mkc(spec, label='op'):
+    """complex operand from {'kind','r','c','re','im'} (Gaussian-integer entries, complex128)"""
+    M = (np.array(spec['re'], dtype='f8') + 1j * np.array(spec['im'], dtype='f8')).reshape(spec['r'], spec['c'])
+    k = spec['kind']
+    if k == 'dense':
+        return register(label, M)
+    if k == 'denseF':
+        return register(label, np.asfortranarray(M))
+    if k == 'csr':
+        return register(label, scipy.sparse.csr_matrix(M))
+    if k == 'csc':
+        return register(label, scipy.sparse.csc_matrix(M))
+    if k == 'aslinop':
+        return scipy.sparse.linalg.aslinearoperator(register(label, M))
+    if k == 'linop':
+        return PlainOp(register(label, M))
+    raise ValueError(k)
+
+
+def _out_carr(Y):
+    Y = np.asarray(Y)
+    dt = str(Y.dtype)
+    Y = Y.astype(complex)
+    if not np.all(np.isfinite(Y)) or not np.all(Y.real == np.round(Y.real)) or not np.all(Y.imag == np.round(Y.imag)):
+        return {'status': 'NonIntegral', 'shape': list(Y.shape), 'repr': [str(v) for v in Y.ravel()[:20]]}
+    return {'status': 'Ok', 'shape': [int(s) for s in Y.shape], 'dtype': dt,
+            're': [int(v) for v in Y.real.ravel()], 'im': [int(v) for v in Y.imag.ravel()]}
+
+
+def run_complex(c, O):
+    x = register('x', (np.array(c['x']['re'], dtype='f8') + 1j * np.array(c['x']['im'], dtype='f8')).reshape(c['x']['shape']))
+    if c['fam'] == 'ckron':
+        op = O.KroneckerOperator(*[mkc(o) for o in c['ops']])
+    else:
+        d = register('d', np.array(c['re'], dtype='f8') + 1j * np.array(c['im'], dtype='f8'))
+        op = O.DiagonalOperator(d)
+    op = variant(op, c['variant'])
+    return _out_carr(apply(op, x, c.get('how')))
+
+
+def fd_internals(op, mats, KM):
+    """The factors of fastdiag_solver's product operator (l_op * DiagonalOperator(1/diag)) * r_op as the
+    implementation holds them, as hex floats; the eigenvalues are not kept by the operator: eigh is
+    called again on the same inputs and its eigenvectors must reproduce the operator's bitwise."""
+    import scipy.linalg
+    lD, r_op = op.args
+    l_op, D = lD.args
+    Us = [np.asarray(U) for U in l_op.ops]
+    UTs = [np.asarray(U) for U in r_op.ops]
+    dense = lambda X: X.toarray() if scipy.sparse.issparse(X) else np.asarray(X)
+    EV = [scipy.linalg.eigh(dense(mats[k]), dense(mats[m])) for (k, m) in KM]
+    same = all(np.array_equal(U, V) for U, (_, V) in zip(Us, EV))
+    hx = lambda A: [float(v).hex() for v in np.asarray(A, dtype='f8').ravel()]
+    return {'U': [hx(U) for U in Us], 'n': [int(U.shape[0]) for U in Us],
+            'rT_is_lT': bool(all(np.array_equal(U.T, V) for U, V in zip(Us, UTs))),
+            'dinv': hx(D.diag), 'lam': [hx(w) for (w, _) in EV], 'lam_same_U': bool(same)}
+
+
 def mkx(spec):
     X = np.array(spec['data'], dtype={'?': 'bool'}.get(spec.get('dtype', 'f8'), spec.get('dtype', 'f8'))).reshape(spec['shape'])
     if spec.get('order') == 'F':
@@ -242,6 +300,8 @@ def run_history(c, O, K, T, U, S):
 
 def run_case(c, O, K, T, U, S):
     fam = c['fam']
+    if fam in ('ckron', 'cdiag'):
+        return run_complex(c, O)
     if fam not in ('solver', 'kronsolver', 'fastdiag'):
         if 'hist' in c:
             return run_history(c, O, K, T, U, S)
@@ -288,8 +348,11 @@ def run_case(c, O, K, T, U, S):
         for k, xk in enumerate(c.get('xs', [])):
             app(ops[0], 'right-hand side %d' % (k + 2), mkx(xk), k + 1)
         app(ops[0], 'result 0 fed back', kept.items[0]['Y'], ['out', 0])
-        return {'status': 'Ok', 'outs': outs, 'mutated': sorted(set(mut)), 'changed': kept.changed(),
-                'aliased': kept.aliased()}
+        res = {'status': 'Ok', 'outs': outs, 'mutated': sorted(set(mut)), 'changed': kept.changed(),
+               'aliased': kept.aliased()}
+        if fam == 'fastdiag' and c.get('want_fd'):
+            res['fd'] = fd_internals(ops[0], mats, c['KM'])
+        return res
     raise ValueError('unknown family ' + fam)
 
 
